@@ -9,7 +9,9 @@
                          that caused the re-initialisation; evs its events; o its outcome
      skel evs            the waits and dial attempts among evs
      bskel 0 rs          Wait(d0) Dial(r0) Wait(d1) Dial(r1) ... with d_j = lit_delay j *)
-From CR Require Import Model.Dialer Proofs.Dialer gen.ExtDialer.
+From CR Require Import Model.Dialer.
+From CR Require Import Proofs.Dialer.
+From CR Require Import gen.ExtDialer.
 Local Open Scope Z_scope.
 
 (* the constants the model takes from the source are the documented ones *)
